@@ -63,6 +63,8 @@ ALL_FEATURES = [
     "global_readers",       # globals that read other aggregate globals:  r :: comptime { p.a }
     "local_comptime_calls", # comptime blocks *inside recursive functions*, after the recursive call,
                             # that call other functions: as a constant, an array size, a type
+    "generic_twins",        # same-shaped functions calling one generic function with different
+                            # type arguments; variants like to put them first in different files
     "struct_cast",          # a second struct with the same member names (other order, other int
                             # widths) and a function that casts one into the other:  S2.(s)
 ]
@@ -89,6 +91,7 @@ class Program:
         self.by_name = {}
         self.status = 0
         self.features = []
+        self.twins = []         # groups of same-shaped items (names)
 
     def add(self, item):
         self.items.append(item)
@@ -124,6 +127,8 @@ class Program:
         p = Program()
         p.status = self.status
         p.features = self.features
+        p.twins = [[n for n in g if n not in names] for g in self.twins]
+        p.twin_callee = getattr(self, "twin_callee", {})
         for it in self.items:
             if it.name not in names:
                 p.add(it)
@@ -161,6 +166,10 @@ def base_variant(prog):
     return Variant([prog.names()])
 
 
+def where_of(files):
+    return set(n for f in files for n in f)
+
+
 def random_variant(prog, rnd, max_files=3):
     names = prog.names()
     nfiles = rnd.choice([1, 1, 2, 2, 3][: 2 * max_files - 1]) if max_files > 1 else 1
@@ -175,6 +184,34 @@ def random_variant(prog, rnd, max_files=3):
     # a file that ended up empty disappears; the entry file is always files[0]
     for f in files:
         rnd.shuffle(f)
+    twins = [g for g in getattr(prog, "twins", []) if len(g) >= 2]
+    if twins and len(files) >= 2 and rnd.random() < 0.5:
+        # same-shaped definitions at the very top of different files: whatever the compiler
+        # keys by position inside a file (arena indices) now coincides across files
+        group = rnd.choice(twins)
+        slots = list(range(len(files)))
+        rnd.shuffle(slots)
+        used = []
+        for name, fi in zip(group, slots):
+            for f in files:
+                if name in f:
+                    f.remove(name)
+            files[fi].insert(0, name)
+            used.append(fi)
+        # the generic function they call should live in a file that holds none of them, so that
+        # every twin reaches it the same way (through an alias)
+        callee = getattr(prog, "twin_callee", {}).get(group[0])
+        if callee in where_of(files):
+            free = [i for i in range(len(files)) if i not in used]
+            if not free and len(files) < 3:
+                files.append([])
+                free = [len(files) - 1]
+            if free:
+                for f in files:
+                    if callee in f:
+                        f.remove(callee)
+                files[free[0]].append(callee)
+        files = [f for i, f in enumerate(files) if f or i == 0]
     return Variant(files)
 
 
@@ -254,8 +291,10 @@ def place_imports(prog, variant, rnd):
         names = list(names)
         targets = sorted(targets)
         rnd.shuffle(targets)
+        twin_names = set(n for g in getattr(prog, "twins", []) for n in g)
+        lo = 1 if names and names[0] in twin_names else 0
         for t in targets:
-            names.insert(rnd.randrange(len(names) + 1), "@imp%d" % t)
+            names.insert(rnd.randrange(lo, len(names) + 1), "@imp%d" % t)
         new_order.append(names)
     return Variant(new_order)
 
@@ -1098,6 +1137,30 @@ class _Gen:
         self.p.add(it)
         return sname
 
+    def mk_generic_twins(self):
+        r = self.rnd
+        if not self.generic_type_fns:
+            self.mk_generic_type()
+        g = r.choice(self.generic_type_fns)
+        tys = r.sample(["u8", "i32", "i64", "u16"], r.randint(2, 3))
+        k1, k2 = r.randint(90, 120), r.randint(2, 5)
+        group = []
+        for t in tys:
+            name = self.fresh("tw")
+            it = Item(name, "fn")
+            it.is_function = True
+            it.deps.add(g)
+            it.render = (lambda ref, name=name, t=t: "%s :: (a: i64) -> i64 {\n    i64.(%s(%s, %s.(a %% 50 + %d), %s.(%d)))\n}"
+                         % (name, ref(g), t, t, k1, t, k2))
+            arg = r.randint(0, 49)
+            it.uses = (lambda ref, tmp, name=name, arg=arg: ["emit(%s(%d));" % (ref(name), arg)])
+            self.p.add(it)
+            group.append(name)
+        self.p.twins.append(group)
+        self.p.twin_callee = getattr(self.p, "twin_callee", {})
+        for n in group:
+            self.p.twin_callee[n] = g
+
     def build(self):
         self.add_prelude()
         r = self.rnd
@@ -1149,6 +1212,8 @@ class _Gen:
             menu.append(("struct_cast", self.mk_struct_cast, 2))
         if "local_comptime_calls" in f:
             menu.append(("local_ct_fn", self.mk_local_ct_fn, 2))
+        if "generic_twins" in f:
+            menu.append(("generic_twins", self.mk_generic_twins, 1))
         weights = [w for _, _, w in menu]
         guard = 0
         while self.count_globals() < self.n and guard < 100:
@@ -1157,6 +1222,8 @@ class _Gen:
             fn()
         if "local_comptime_calls" in f and not getattr(self, "local_ct_fns", 0):
             self.mk_local_ct_fn()
+        if "generic_twins" in f and not self.p.twins:
+            self.mk_generic_twins()
         main = Item("main", "main")
         main.is_function = True
         main.deps.add("emit")
